@@ -30,7 +30,9 @@ Admits(t) == CASE t = "integer" -> {"int", "null"}
 
 R1 == [name |-> "res_1", fields |-> <<F("a", "integer", {"int"}), F("b", "string", {"str", "null"})>>]
 R2 == [name |-> "res_2", fields |-> <<F("a", "integer", {"int"}), F("c", "number", {"num"})>>]
-Inputs == { <<R1>>, <<R1, R2>> }
+\* a second resource whose field "a" has ANOTHER type than res_1's: what a step derives for one resource must not be reused for the next
+R3 == [name |-> "res_2", fields |-> <<F("a", "number", {"num"}), F("c", "number", {"num"})>>]
+Inputs == { [l |-> "I0", p |-> <<R1>>], [l |-> "I1", p |-> <<R1, R2>>], [l |-> "I2", p |-> <<R1, R3>>] }
 
 Has(res, n) == \E i \in DOMAIN res.fields : res.fields[i].name = n
 Get(res, n) == res.fields[CHOOSE i \in DOMAIN res.fields : res.fields[i].name = n]
@@ -140,7 +142,7 @@ Apply(s, pkg) ==
     [] s.k = "join" -> <<AddField(pkg[2], F("j", JoinType(s.agg, Get(pkg[1], s.f).type), JoinTags(s.agg, Get(pkg[1], s.f).tags)))>>
 
 VARIABLES pkg, prog, input
-Init == /\ \E p \in Inputs : pkg = p /\ input = (IF Len(p) = 1 THEN "I0" ELSE "I1")
+Init == /\ \E i \in Inputs : pkg = i.p /\ input = i.l
         /\ prog = <<>>
 Next == \E s \in Steps : /\ Len(prog) < Depth /\ Enabled(s, pkg)
                          /\ pkg' = Apply(s, pkg) /\ prog' = Append(prog, s) /\ UNCHANGED input
